@@ -160,7 +160,11 @@ func (m *Machine) fmtValue(caller *frame, v Value, verb byte) Str {
 		// error / Stringer
 		if verb == 's' || verb == 'v' || verb == 'q' {
 			for _, name := range []string{"Error", "String"} {
-				if f := m.P.Prog.LookupMethod(v.T, nil, name); f != nil && f.Signature.Params().Len() == 0 && f.Signature.Results().Len() == 1 && isString(f.Signature.Results().At(0).Type()) {
+				sel := m.P.Prog.MethodSets.MethodSet(v.T).Lookup(nil, name)
+				if sel == nil {
+					continue
+				}
+				if f := m.P.Prog.MethodValue(sel); f != nil && f.Signature.Params().Len() == 0 && f.Signature.Results().Len() == 1 && isString(f.Signature.Results().At(0).Type()) {
 					r := m.call(caller, token.NoPos, f, []Value{v.V})
 					return r.(Str)
 				}
